@@ -14,9 +14,35 @@ from twisted.python import log
 # * expect to see the receiver/sender handshake bytes from the other side
 # * the sender writes "go\n", the receiver waits for "go\n"
 # * the rest of the connection contains transit data
-DirectTCPV1Hint = namedtuple("DirectTCPV1Hint",
-                             ["hostname", "port", "priority"])
-TorTCPV1Hint = namedtuple("TorTCPV1Hint", ["hostname", "port", "priority"])
+
+
+class _TypedHint:
+    # hint objects are collected in sets: a direct hint and a tor hint for
+    # the same hostname, port and priority are two different hints (as
+    # plain namedtuples they would compare equal, and one of them - maybe
+    # the only one we can use - would be dropped)
+    __slots__ = ()
+
+    def __eq__(self, other):
+        return type(other) is type(self) and tuple.__eq__(self, other)
+
+    def __ne__(self, other):
+        return not self.__eq__(other)
+
+    def __hash__(self):
+        return hash((type(self).__name__, tuple(self)))
+
+
+class DirectTCPV1Hint(_TypedHint, namedtuple("DirectTCPV1Hint",
+                                             ["hostname", "port", "priority"])):
+    __slots__ = ()
+
+
+class TorTCPV1Hint(_TypedHint, namedtuple("TorTCPV1Hint",
+                                          ["hostname", "port", "priority"])):
+    __slots__ = ()
+
+
 # RelayV1Hint contains a tuple of DirectTCPV1Hint and TorTCPV1Hint hints (we
 # use a tuple rather than a list so they'll be hashable into a set). For each
 # one, make the TCP connection, send the relay handshake, then complete the
